@@ -3812,7 +3812,12 @@ class Client:
             "info": info,
         }
 
-        self._out_packet.append(mpkt)
+        if command == CONNECT:
+            # CONNECT must be the first packet on a connection, also when another thread (or the
+            # on_socket_open callback) queued something since the socket was created
+            self._out_packet.appendleft(mpkt)
+        else:
+            self._out_packet.append(mpkt)
 
         # Write a single byte to sockpairW (connected to sockpairR) to break
         # out of select() if in threaded mode.
